@@ -12,7 +12,7 @@ Generator programs of the C01 fragment are wrapped (vf/compgen.py) into componen
              a sample) runs it on the EDBs, the `I.rel.csv` files are compared with the model as sets of typed tuples;
   cross    : TLC's model of Flatten(CP) must be TLC's model of the original flat program under the intended renaming
              (a disagreement is a fault of the spec or of the wrapping generator and is reported as INFRA-ERROR)."""
-import json, os, random, shutil, concurrent.futures as cf
+import json, os, random, shutil, time, concurrent.futures as cf
 from .. import gen, evalcore, build, render, comprender, compgen, tlc, souffle as sf
 from ..common import workdir, seed, Result, NCPU, SPEC, canon, to_tla, run as runcmd
 from ..evidence import finish
@@ -97,15 +97,18 @@ def run(tier, replay=None):
     n = 6 if quick else 60
     max_cases = 6 if quick else 16
     n_compiled = 3 if quick else 24
-    Ps = gen.programs(seed() * 1000 + 16, n, features=FEATURES, hide_some=False, eqrel=True, n_idb=(3, 5), max_edbs=64, edb_sample=10)
+    Ps = gen.programs(seed() * 1000 + 16, n, features=FEATURES, hide_some=False, eqrel=True, n_idb=(3, 5), max_edbs=32, edb_sample=8)
     CPs = []; owner = []
     for i, P in enumerate(Ps):
         for s in compgen.SHAPES:
             CPs.append(compgen.wrap(P, s, random.Random("%d/%d/%s" % (seed(), i, s)))); owner.append(i)
+    t0 = time.time(); res2 = Result("C16", tier)
     with cf.ThreadPoolExecutor(2) as ex:       # the two TLC runs side by side
         f1 = ex.submit(flat_models, CPs, wd, res, 42 if quick else 70)
-        f2 = ex.submit(evalcore.tlc_models, Ps, wd, Result("C16", tier), None, 2400, 40)
+        f2 = ex.submit(evalcore.tlc_models, Ps, wd, res2, None, 2400, 40)
         (fcases, flat), ocases = f1.result(), f2.result()
+    res.infra_errors += res2.infra_errors
+    t_tlc = time.time() - t0; t0 = time.time()
     # ---- spec against spec: the expansion is the original program renamed
     for q, CP in enumerate(CPs):
         if flat[q] is None or not fcases[q]:
@@ -207,7 +210,9 @@ def run(tier, replay=None):
     res.cov.update({"programs": len(Ps), "component_programs": len(CPs), "component_programs_run": len(texts),
                     "edb_cases_modelled": sum(len(x) for x in fcases),
                     "edb_cases_nontrivial": sum(evalcore.nontrivial(x) for x in fcases),
-                    "real_runs_compared": runs, "runs_per_shape": shapes, "component_features_exercised": notes})
+                    "real_runs_compared": runs, "runs_per_shape": shapes, "component_features_exercised": notes,
+                    "states_of_the_original_programs_cross_check": res2.cov["states"],
+                    "seconds": {"tlc": round(t_tlc, 1), "souffle": round(time.time() - t0, 1)}})
     for s in compgen.SHAPES:
         q = next((q for q in texts if CPs[q]["shape"] == s and fcases[q] and evalcore.nontrivial(fcases[q])), None)
         if q is not None:
